@@ -484,7 +484,7 @@ def c08():
                       "any leaf set / removed set over positions < %d, any cutoff, prune list: K = %d " % (lim, k) + PL % lim, env={"VH_LIM": lim, "VH_K": k}, tag="_k%d_l%d" % (k, lim), est=300, loops=BL, mem_est_gb=8))
     for k, lim, tiers in [(0, 15, "qt"), (1, 15, "qt"), (2, 15, "qt"), (1, 31, "t"), (2, 31, "t")]:
         obs.append(ob("c08::compaction_plan_matches_definition", tiers, lim + 3, "PMMRBackend::pos_to_rm (planning step of check_compact, on a backend with detached files): leaves removed = spent unpruned leaves up to the cutoff; positions to remove = positions newly interior to a pruned subtree (roots of pruned subtrees stay, already-removed positions are not removed twice)",
-                      "any consistent leaf set / rewind set over positions < %d, any cutoff, prune list: K = %d " % (lim, k) + PL % lim, env={"VH_LIM": lim, "VH_K": k}, tag="_k%d_l%d" % (k, lim), est=400, loops=BL, mem_est_gb=8))
+                      "any consistent leaf set / rewind set over positions < %d, any cutoff, prune list: K = %d " % (lim, k) + PL % lim, env={"VH_LIM": lim, "VH_K": k}, tag="_k%d_l%d" % (k, lim), est=400, loops=dict(BL, **{"pos_to_rm#0": 7 if lim == 31 else 6, "pos_to_rm#1": (lim + 1) // 2 + 2}), mem_est_gb=12))
     for k, lim, tiers in [(1, 31, "t"), (2, 31, "t")]:
         obs.append(ob("c08::prune_list_new_matches_definition", tiers, 8, "PruneList::new over K ascending disjoint subtrees (siblings allowed: roll-up inside new) equals the definition", "K = %d positions < %d, symbolic" % (k, lim), env={"VH_K": k, "VH_LIM": lim}, tag="_k%d_l%d" % (k, lim), est=900, loops=dict(L, **{"PruneList3new": k + 2}), recurse={"PruneList::append": 6}, mem_est_gb=20))
     return {
